@@ -206,9 +206,13 @@ def rand_timing(rng, mode='any'):
     if rng.random() < 0.12:
         # other spellings of a number that float() reads: sign, exponent, padding, leading zero
         for k_ in ('duration', 'text_time', 'media_time'):
-            if k_ in kw and rng.random() < 0.7:
+            if k_ in kw and not isinstance(kw[k_], str) and rng.random() < 0.7:
                 v_ = kw[k_]
                 kw[k_] = rng.choice(['+%s' % v_, ' %s ' % v_, '0%s' % v_, '%se0' % v_, '-%s' % v_, '%s' % (v_ * 1000) + 'e-3'])
+    if rng.random() < 0.05:
+        # a timing field whose text is not a number (the payload is vendor data: "0:45", an empty tag, a unit)
+        k_ = rng.choice([k for k in ('duration', 'text_time', 'media_time') if k in kw] or ['text_time'])
+        kw[k_] = rng.choice(['0:45', '', '45s', 'soon', '00:00:45'])
     if rng.random() < 0.12:
         # all three fields, StoryDuration disagreeing with TextTime + MediaTime (it takes precedence wherever it stands)
         kw['duration'], kw['text_time'], kw['media_time'] = q(), q(), q()
